@@ -45,6 +45,8 @@ type director struct {
 	scripted bool // a structured plan: the random faults keep quiet for this height so that the plan plays out
 	// holdOthers: round -> validator indices whose prevotes are withheld from every node BUT the victim
 	holdOthers map[uint32]map[int]bool
+	// minRelease: the withheld prevotes are not released before the victim has reached this round (relock plan)
+	minRelease uint32
 	deadline time.Duration
 }
 
@@ -124,7 +126,7 @@ func (s *Sim) directorStep() {
 					maxHeld = r
 				}
 			}
-			locked := vrs.LockedBlock != nil && vrs.Round > vrs.LockedRound && vrs.Round > maxHeld
+			locked := vrs.LockedBlock != nil && vrs.Round > vrs.LockedRound && vrs.Round > maxHeld && vrs.Round >= d.minRelease
 			if (locked && (d.eager || s.tape.Chance(1, 3))) || vrs.Round > d.rounds {
 				d.released = true
 				if locked {
@@ -158,8 +160,11 @@ func (s *Sim) directorStep() {
 			name string
 			f    func(*director, []*kit.Node) string
 		}
-		fams := []famT{{"minority-lock", s.minorityLockPlan}, {"starve", s.starvePlan}, {"late-polka", s.latePolkaPlan}}
+		fams := []famT{{"minority-lock", s.minorityLockPlan}, {"starve", s.starvePlan}, {"late-polka", s.latePolkaPlan}, {"relock", s.relockPlan}}
 		start := map[int]int{0: 0, 1: 0, 3: 1, 4: 2}[fam]
+		if fam == 0 {
+			start = 3
+		}
 		for k := 0; k < len(fams); k++ {
 			ft := fams[(start+k)%len(fams)]
 			nd := &director{height: d.height, victim: d.victim, rounds: d.rounds, plans: map[uint32]*roundPlan{}, hold: map[uint32]map[int]bool{}}
@@ -442,6 +447,92 @@ func (s *Sim) latePolkaPlan(d *director, live []*kit.Node) string {
 	}
 	s.baitSilent[d.height] = 2 // (for the rest of that height, also once the director has let go)
 	return fmt.Sprintf(" late-polka: r1 proposal only to nodes %d and %d, the helping prevotes of validators %v only to the victim; r2 prevotes of validators %v withheld from the victim until it has left round 2", pr.v.ID, pr.p.ID, keysOf(ho), keysOf(h2))
+}
+
+// relockPlan: the victim alone locks a first block X in round 1 (as in the late-polka plan). Round 2
+// is open and an unlocked proposer proposes a second block Z: the other correct nodes prevote it, but
+// the helping Byzantine prevote that would complete the polka for Z is withheld from EVERYBODY, so
+// nobody locks Z and the round fails. Round 3 belongs to the victim, which proposes X again; the
+// proposal reaches the victim and its partner only and the helping prevote only the victim: the victim
+// sees a second polka for X and precommits X again (its lock now dates from round 3), the others
+// precommit nil. Only when the victim has reached round 4 is the withheld round-2 prevote released: it
+// completes a polka for Z that is OLDER than the victim's latest precommit, and a correct node keeps
+// its lock. One whose lock round went stale at the relock gives the lock up and prevotes the next
+// proposal.
+func (s *Sim) relockPlan(d *director, live []*kit.Node) string {
+	var total, bait int64
+	for _, st := range s.cfg.Stakes {
+		total += st
+	}
+	baitAddr := map[string]bool{}
+	for _, b := range s.byz {
+		if b.Strat == "lock-bait" && b.ID < len(s.cfg.Stakes) {
+			bait += s.cfg.Stakes[b.ID]
+			baitAddr[string(b.Addr.Bytes())] = true
+		}
+	}
+	if bait == 0 || len(live) < 3 {
+		return ""
+	}
+	p1, b1 := s.proposerOf(live, 1)
+	p2, b2 := s.proposerOf(live, 2)
+	p3, _ := s.proposerOf(live, 3)
+	if p3 == nil || p3.ID >= len(s.cfg.Stakes) {
+		return "" // the victim itself has to propose in round 3: nobody else holds X as valid block
+	}
+	if (p1 == nil && (b1 == nil || b1.Strat != "lock-bait")) || (p2 == nil && (b2 == nil || b2.Strat != "lock-bait")) {
+		return ""
+	}
+	if p2 != nil && p2.ID == p3.ID {
+		return "" // the locked victim would propose its locked block in round 2 already
+	}
+	v := p3
+	var partners []*kit.Node
+	for _, p := range live {
+		if p.ID == v.ID || p.ID >= len(s.cfg.Stakes) {
+			continue
+		}
+		if p1 != nil && p1.ID != v.ID && p1.ID != p.ID {
+			continue // a correct round-1 proposer votes for its own block: it has to be one of the two
+		}
+		sum := s.cfg.Stakes[v.ID] + s.cfg.Stakes[p.ID]
+		// the two alone are no quorum, with the helper they are; the others with the helper are one
+		// (round 2), without it they are not
+		if !quorumOK(sum, total) && quorumOK(sum+bait, total) && quorumOK(total-s.cfg.Stakes[v.ID], total) && !quorumOK(total-s.cfg.Stakes[v.ID]-bait, total) {
+			partners = append(partners, p)
+		}
+	}
+	if len(partners) == 0 {
+		return ""
+	}
+	pt := partners[s.tape.Draw(len(partners))]
+	rs := rsOf(v)
+	if rs.Validators == nil {
+		return ""
+	}
+	d.victim = v.ID
+	d.rounds = 5
+	d.eager = true
+	d.minRelease = 4
+	d.plans[1] = &roundPlan{kind: "subset", allowed: map[int]bool{v.ID: true, pt.ID: true}}
+	d.plans[2] = &roundPlan{kind: "open"}
+	d.plans[3] = &roundPlan{kind: "subset", allowed: map[int]bool{v.ID: true, pt.ID: true}}
+	d.plans[4] = &roundPlan{kind: "open"}
+	d.plans[5] = &roundPlan{kind: "open"}
+	ho := map[int]bool{}
+	for i, val := range rs.Validators.Validators {
+		if baitAddr[string(val.Address.Bytes())] {
+			ho[i] = true
+		}
+	}
+	d.holdOthers = map[uint32]map[int]bool{1: ho, 2: ho, 3: ho}
+	d.hold[2] = ho
+	d.baitUntil = 3
+	if s.baitSilent == nil {
+		s.baitSilent = map[uint64]uint32{}
+	}
+	s.baitSilent[d.height] = 3
+	return fmt.Sprintf(" relock: r1 and r3 (the victim's own) proposals only to nodes %d and %d, the helping prevotes of validators %v only to the victim; r2 open, the helping prevotes withheld from everybody until the victim has reached round 4", v.ID, pt.ID, keysOf(ho))
 }
 
 // calm: a scripted plan is playing for the height this message belongs to; random network
